@@ -1,2 +1,5 @@
 -- root of the library: every property module (imports pull in models, specs, ties)
+import PC.Props.C02
+import PC.Props.C06
+import PC.Props.C10
 import PC.Props.C18
